@@ -254,6 +254,64 @@ func progs() []prog {
 				vrt.Join(hs...)
 				*out = append(*out, s)
 			}},
+		{name: "Pool: empty in every execution, LIFO, New on a miss", opts: un, want: []string{"new,2,1,new"},
+			body: func(out *[]string) {
+				p := &vsync.Pool{New: func() any { return "new" }}
+				a := p.Get()
+				p.Put("1")
+				p.Put("2")
+				*out = append(*out, fmt.Sprint(a), fmt.Sprint(p.Get()), fmt.Sprint(p.Get()), fmt.Sprint(p.Get()))
+			}},
+		{name: "Cond: a Signal between Unlock and sleep is not lost; Broadcast wakes all", opts: un, want: []string{"woken 2"},
+			body: func(out *[]string) {
+				var mu vsync.Mutex
+				c := vsync.NewCond(&mu)
+				ready, woken := 0, 0
+				var hs []vrt.Handle
+				for i := 0; i < 2; i++ {
+					hs = append(hs, vrt.Go2(func() {
+						mu.Lock()
+						for ready == 0 {
+							c.Wait()
+						}
+						woken++
+						mu.Unlock()
+					}))
+				}
+				mu.Lock()
+				ready = 1
+				mu.Unlock()
+				c.Broadcast()
+				vrt.Join(hs...)
+				*out = append(*out, fmt.Sprint("woken ", woken))
+			}},
+		{name: "TryLock fails while the mutex is held and succeeds when it is free", opts: un, want: []string{"false true"},
+			body: func(out *[]string) {
+				var mu vsync.Mutex
+				mu.Lock()
+				a := mu.TryLock()
+				mu.Unlock()
+				b := mu.TryLock()
+				*out = append(*out, fmt.Sprint(a, " ", b))
+			}},
+		{name: "AfterFunc runs its function on the virtual clock", opts: un, want: []string{"after at 2s"},
+			body: func(out *[]string) {
+				afterAt := int64(-1)
+				done := vrt.MakeChan[struct{}](1)
+				vtime.AfterFunc(2*time.Second, func() { afterAt = vrt.Now(); vrt.Send(done, struct{}{}) })
+				vrt.Recv(done)
+				*out = append(*out, fmt.Sprintf("after at %ds", afterAt/int64(time.Second)))
+			}},
+		{name: "len of a controlled channel is its buffered count", opts: un, want: []string{"0 2 1"},
+			body: func(out *[]string) {
+				c := vrt.MakeChan[int](3)
+				a := vrt.ChanLen(c)
+				vrt.Send(c, 1)
+				vrt.Send(c, 2)
+				b := vrt.ChanLen(c)
+				vrt.Recv(c)
+				*out = append(*out, fmt.Sprint(a, " ", b, " ", vrt.ChanLen(c)))
+			}},
 	}
 }
 
@@ -281,7 +339,12 @@ func Run() (report []string, failed int) {
 					return ""
 				}}
 			x.Opts.Prune = prune
+			x.Deadline = time.Now().Add(20 * time.Second) // a micro-program that does not finish in this time is a failure
+			start := time.Now()
 			err := x.Explore()
+			if time.Since(start) > 19*time.Second {
+				err = fmt.Errorf("not explored completely within 20 s")
+			}
 			var got []string
 			for k := range set {
 				got = append(got, k)
